@@ -18,7 +18,7 @@ from vmon.res import Result, exc_name
 
 ID = "C19"
 LEVEL = "exploration"
-CASES = {"quick": 6000, "thorough": 120000}
+CASES = {"quick": 6000, "thorough": 600000}
 RULE = ("seeded random date/datetime vectors (length 0-12, units D,h,m,s,ms,us, years 1-9999 with calendar edge pool: leap days, ISO-week-53 "
         "years, year boundaries, 1969/1970; NaT anywhere incl. all) x {11 extractors, replace with scalar and vector components, to_string "
         "over a fixed strftime family, from_string inverse}; string vectors with '' x 7 regex functions x a fixed pattern family incl. "
